@@ -23,11 +23,11 @@ RULE = ('cases = environment runs executed on the real code: (a) TLC -simulate b
         'driver.Driver with scripted GPUs, (c) the same with real command processors and real PMCs; distinct = distinct '
         'event traces; non-trivial = (a) >= 1 completed migration of >= 2 chunks whose chunk answers were reordered, or '
         '>= 2 migrations overlapping in time; (b, c) >= 1 completed handshake that re-homed a page')
-TSPEC = {'dirs': ['pmc'], 'module': 'PMCTrace.tla', 'cfg': 'PMCTrace.cfg', 'timeout': 1500}
+TSPEC = {'dirs': ['pmc'], 'module': 'PMCTrace.tla', 'cfg': 'PMCTrace.cfg', 'timeout': 3000}
 
 
 def dspec(ngpu):
-    return {'dirs': ['pmc'], 'module': 'MigrationTrace.tla', 'cfg': 'MigrationTrace%d.cfg' % ngpu, 'timeout': 1500,
+    return {'dirs': ['pmc'], 'module': 'MigrationTrace.tla', 'cfg': 'MigrationTrace%d.cfg' % ngpu, 'timeout': 3000,
             'signature': _dsig}
 
 
@@ -245,7 +245,7 @@ class Acc:
 
     def __init__(self):
         self.pmc_traces, self.drv_traces, self.events = [], [], 0
-        self.first_pmc = self.first_drv = None
+        self.first_drv = None
         self.selftest = []
 
 
@@ -262,7 +262,7 @@ def phase_mc_pmc(ctx, thorough):
     if zeros:
         raise vlib.Infra('vacuity: actions never taken in MC_PMC: %s' % zeros)
     if thorough:
-        for cfg in ('MC_PMC_big.cfg', 'MC_PMC_3gpu.cfg', 'MC_PMC_cap2.cfg', 'MC_PMC_ser3.cfg'):
+        for cfg in ('MC_PMC_big.cfg', 'MC_PMC_3gpu.cfg', 'MC_PMC_cap2.cfg', 'MC_PMC_ser3.cfg', 'MC_PMC_live2.cfg', 'MC_PMC_conc2.cfg'):
             r = ctx.tlc_expect_ok(['pmc'], 'MC_PMC.tla', cfg, workers=w, timeout=3000)
             ctx.log('%s: %d distinct states, depth %d' % (cfg, r.distinct, r.depth))
 
@@ -282,13 +282,14 @@ def phase_mc_mig(ctx, thorough):
     if thorough:
         r = ctx.tlc_expect_ok(['pmc'], 'MC_Migration.tla', 'MC_Migration_live.cfg', timeout=1800, workers=w)
         ctx.log('MC_Migration_live (Progress under fairness): %d distinct states' % r.distinct)
-        r = ctx.tlc_expect_ok(['pmc'], 'MC_Migration.tla', 'MC_Migration_big.cfg', workers=w, timeout=3000)
-        ctx.log('MC_Migration_big.cfg: %d distinct states, depth %d' % (r.distinct, r.depth))
+        for cfg in ('MC_Migration_req3.cfg', 'MC_Migration_big.cfg'):
+            r = ctx.tlc_expect_ok(['pmc'], 'MC_Migration.tla', cfg, workers=w, timeout=3000)
+            ctx.log('%s: %d distinct states, depth %d' % (cfg, r.distinct, r.depth))
         ctx.cov['exhaustive'] = True
 
 
 def phase_scen(ctx, drv, thorough, acc):
-    nsim = 300 if thorough else 40
+    nsim = 400 if thorough else 40
     behs, _ = ctx.simulate(['pmc'], 'PMCScen.tla', 'PMCScen.cfg', num=nsim, depth=150 if thorough else 110)
     scen = scen_from_behaviours(behs, ctx.seed)
     sfile = os.path.join(ctx.scratch, 'scen.json')
@@ -302,7 +303,7 @@ def phase_scen(ctx, drv, thorough, acc):
     acc.events += stats['events']
     # free-running: akita SerialEngine + DirectConnection + ideal memory controllers, nothing scripted
     t4 = os.path.join(ctx.scratch, 'trace_real.ndjson')
-    args4 = ['-real', 150 if thorough else 12, '-reqs', 6, '-maxchunks', 6 if thorough else 4, '-seed', ctx.seed + 5, '-out', t4]
+    args4 = ['-real', 200 if thorough else 12, '-reqs', 6, '-maxchunks', 6 if thorough else 4, '-seed', ctx.seed + 5, '-out', t4]
     stats4 = _drive(ctx, drv, args4)
     ctx.log('free-running on akita engine/connections/ideal memory: %s' % stats4)
     common.validate_and_triage(ctx, TSPEC, t4, {'cmd': 'c19', 'args': args4[:-1]})
@@ -323,7 +324,7 @@ def phase_random(ctx, drv, thorough, acc):
     if thorough:
         # full-size pages (4 KiB = 64 chunks)
         t3 = os.path.join(ctx.scratch, 'trace_big.ndjson')
-        args3 = ['-random', 6, '-reqs', 3, '-maxchunks', 64, '-seed', ctx.seed + 77, '-out', t3]
+        args3 = ['-random', 4, '-reqs', 2, '-maxchunks', 64, '-seed', ctx.seed + 77, '-out', t3]
         stats3 = _drive(ctx, drv, args3)
         ctx.log('4 KiB pages: %s' % stats3)
         common.validate_and_triage(ctx, dict(TSPEC, heap='6g'), t3, {'cmd': 'c19', 'args': args3[:-1]})
@@ -358,7 +359,7 @@ def run_drv(ctx, drv, acc, tag, n, kind, ngpu, seed, sys=False, log2=12, max_rou
 
 
 def phase_drv(ctx, drv, thorough, acc):
-    run_drv(ctx, drv, acc, 'stub2', 300 if thorough else 40, 'normal', 2, ctx.seed)
+    run_drv(ctx, drv, acc, 'stub2', 400 if thorough else 40, 'normal', 2, ctx.seed)
     with ThreadPoolExecutor(max_workers=1) as ex:
         f = ex.submit(selftests, ctx, dspec(2), acc.first_drv, drv_corruptions(thorough), acc)
         phase_drv_rest(ctx, drv, thorough, acc)
@@ -391,7 +392,7 @@ def phase_drv_rest(ctx, drv, thorough, acc):
 
 
 def phase_sys(ctx, drv, thorough, acc):
-    run_drv(ctx, drv, acc, 'sys2', 40 if thorough else 6, 'normal', 2, ctx.seed + 10, sys=True, log2=8)
+    run_drv(ctx, drv, acc, 'sys2', 60 if thorough else 6, 'normal', 2, ctx.seed + 10, sys=True, log2=8)
     if thorough:
         run_drv(ctx, drv, acc, 'sys3', 20, 'normal', 3, ctx.seed + 11, sys=True, log2=9)
         run_drv(ctx, drv, acc, 'sys2_4k', 3, 'normal', 2, ctx.seed + 12, sys=True, log2=12)
@@ -435,6 +436,7 @@ def run(ctx, selftest=False):
                     'handshakes_completed_on_real_driver': sum(1 for _, recs in dparts for r in recs if r['e'] == 'Reply'),
                     'pages_rehomed_on_real_driver': sum(1 for _, recs in dparts for r in recs if r['e'] == 'PTChange')})
 
+    ctx.cov['coverage_zero_actions'] = []   # phase_mc_* raise when a -coverage run has an action with zero count
     # binding self-tests of both trace specs ran inside the phases
     ctx.cov['binding_selftest'] = acc.selftest
     if len(acc.selftest) < 6:
